@@ -194,10 +194,20 @@ def judge(name, spec, cfg, inst, acts):
 
 
 # --------------------------------------------------------------------------- env side
-def replay_batch(env, inst1, cands, has_low):
-    """Replay K candidates as K copies of one instance.  Returns per candidate (admitted, step, done_at_end)."""
+def replay_batch(env, inst1, cands, has_low, lead=None):
+    """Replay K candidates as K copies of one instance.  Returns per candidate (admitted, step, done_at_end).
+    `lead` = (other_instance_row, its_candidate): that pair is replayed at batch row 0 in front of the K copies (mixed
+    batch: per-instance quantities of the instance under test must not be read from row 0); its result is dropped."""
+    if lead is not None:
+        rej, ok = _replay_rows(env, torch.cat([lead[0]] + [inst1] * len(cands), 0), [list(lead[1])] + list(cands), has_low)
+        return rej[1:], ok[1:]
     K = len(cands)
-    td = env.reset(torch.cat([inst1] * K, 0) if K > 1 else inst1.clone())
+    return _replay_rows(env, torch.cat([inst1] * K, 0) if K > 1 else inst1.clone(), cands, has_low)
+
+
+def _replay_rows(env, rows, cands, has_low):
+    K = len(cands)
+    td = env.reset(rows)
     L = max(len(c) for c in cands)
     lens = torch.tensor([len(c) for c in cands])
     A = torch.zeros(K, L + 2, dtype=torch.long)
@@ -508,15 +518,31 @@ def execute(case, ctx):
         # route length equal to the distance limit in exact dyadic arithmetic (oracle-certified, see judge_mtvrp)
         exact = set(exact) | {"distance_limit="}
     ctx.event(f"env:{name}")
-    for b in range(inst.batch_size[0]):
+    if case.get("coincident_customers"):
+        ctx.event("coincident_customers")
+    nB = inst.batch_size[0]
+    pre = []
+    for b in range(nB):
         I = py_instance(name, inst[b])
         cands = candidates(name, cfg, I)
         if len(cands) > MAX_CAND:
-            ctx.exclude("candidate_space_too_large")
+            pre.append(None)
             continue
         verdicts = [judge(name, spec, cfg, I, c) for c in cands]
         classes = [v.robust_class(tau, exact) for v in verdicts]
-        feas = [i for i, c in enumerate(classes) if c == "feasible"]
+        pre.append((I, cands, verdicts, classes, [i for i, c in enumerate(classes) if c == "feasible"]))
+    for b in range(nB):
+        if pre[b] is None:
+            ctx.exclude("candidate_space_too_large")
+            continue
+        I, cands, verdicts, classes, feas = pre[b]
+        # mixed batch (B = 2): the other instance, playing one of its own robustly feasible solutions, sits at batch
+        # row 0 while this instance's candidates are replayed - what is admitted may not depend on the batch mates
+        lead = None
+        if nB == 2 and pre[1 - b] is not None and pre[1 - b][4]:
+            o = pre[1 - b]
+            lead = (inst[1 - b:2 - b], o[1][o[4][case["seed"] % len(o[4])]])
+            ctx.event("replayed_behind_another_instance")
         n_inf = sum(1 for c in classes if c == "infeasible")
         n_dc = sum(1 for c in classes if c == "dont_care")
         tight = sum(1 for i in feas if any(s == 0 for _, s in verdicts[i].slacks))
@@ -527,7 +553,7 @@ def execute(case, ctx):
         # (1) completeness replay
         fc = [cands[i] for i in feas]
         rej, done_ok = ctx.guard(replay_batch, env if name != "ffsp" else spec.env(cfg), inst[b:b + 1], fc,
-                                 spec.has_depot_action, what=f"replay|{name}|{sl}")
+                                 spec.has_depot_action, lead, what=f"replay|{name}|{sl}")
         for j, i in enumerate(feas):
             if int(rej[j]) >= 0:
                 v = verdicts[i]
@@ -568,6 +594,11 @@ SMALL = {
 }
 
 
+# envs whose batches are not drawn mixed here (none at present; kept as the switch for envs that cannot hold two
+# different instances of one config in a batch)
+NO_MIXED = set()
+
+
 def cases(tier):
     big = tier != "quick"
 
@@ -596,9 +627,24 @@ def cases(tier):
             cfg["k"] = draw(st.integers(1, min(cfg["sets"], 4)))
         srcs = [s for s in spec.sources if s != "flt"]
         src = draw(st.sampled_from(srcs + ["lat"]))
-        case = {"env": name, "cfg": cfg, "B": 1, "src": src, "seed": draw(st.integers(0, 2 ** 31 - 1))}
+        nB = draw(st.sampled_from([1, 1, 2])) if name not in NO_MIXED else 1
+        case = {"env": name, "cfg": cfg, "B": nB, "src": src, "seed": draw(st.integers(0, 2 ** 31 - 1))}
         if src == "lat":
-            case["lat"] = draw(spec.lattice(cfg, 1, exact=True))
+            case["lat"] = draw(spec.lattice(cfg, nB, exact=True))
+            # coincident customers (zero-length legs; real data sets contain them, uniform generators never do): the
+            # customer farther from the depot is moved onto a nearer one, which keeps every window / limit that the
+            # lattice derived from the depot distance satisfiable
+            L0 = case["lat"].get("locs")
+            if L0 is not None and (name == "mtvrp" or "depot" in case["lat"]) and draw(st.integers(0, 3 if name != "mtvrp" else 1)) == 0:
+                for r_ in range(nB):
+                    dep = L0[r_][0] if name == "mtvrp" else case["lat"]["depot"][r_]
+                    cust = list(range(1, len(L0[r_]))) if name == "mtvrp" else list(range(len(L0[r_])))
+                    if len(cust) >= 2 and not isinstance(dep[0], list):
+                        a_, b_ = draw(st.permutations(cust))[:2]
+                        da, db = (math.hypot(L0[r_][k][0] - dep[0], L0[r_][k][1] - dep[1]) for k in (a_, b_))
+                        near, far = (a_, b_) if da <= db else (b_, a_)
+                        L0[r_][far] = list(L0[r_][near])
+                        case["coincident_customers"] = True
             if name == "mtvrp" and case["lat"]["distance_limit"][0][0] < 1e29 and draw(st.booleans()):
                 # boundary construction: the limit equals the exact (dyadic) length of some route of 1-3 customers
                 locs = case["lat"]["locs"][0]
@@ -616,7 +662,7 @@ def cases(tier):
                     case["lat"]["distance_limit"][0][0] = draw(st.sampled_from(sorted(opts)))
                     case["limit_on_route_length"] = True
         elif src == "tgt":
-            case["lat"] = draw(spec.tight(cfg, 1))
+            case["lat"] = draw(spec.tight(cfg, nB))
         return case
     return c()
 
